@@ -139,6 +139,8 @@ class PipeT(asyncio.Transport):
     def pause_reading(self):
         self.paused = True
         self.pauses = getattr(self, "pauses", 0) + 1
+        # how many bytes of the stream had been delivered when the reader asked for the pause
+        self.pause_at = getattr(self, "pause_at", []) + [self.seg.pos]
 
     def resume_reading(self):
         self.paused = False
